@@ -10,6 +10,18 @@ ENGINES = [
 ]
 NA = {}
 TEXT = {
+    "C05": {
+        "engine": "rrtk-mc c05-seqs + c05-deviations + c05-freeze",
+        "technique": "stateless bounded-exhaustive exploration of event histories on the real streams (all 5^d histories, d=8 quick / 10 thorough, plus all H-event histories within k deviations of the default stream) with differential oracles against fresh real streams",
+        "text": "For each of 15 stateful stream variants every history over {P,P',N,E1,E2} up to the depth bound, and every "
+                "24/2 (48/3) deviation-bounded long history, is executed on a freshly built real stream; after every "
+                "event: no stale error, reset == fresh stream fed the suffix (bit equality), deleting ignored absent "
+                "events changes nothing, get() pure (input poisoned between calls; lazy-get run). Freeze: all 16^d "
+                "condition x input histories against the reference machine. Small-scope complete: the streams keep at "
+                "most three samples of memory, so depth 8 exceeds every distinct internal stage.",
+        "note": "Trusted: harness reset-policy table, scripted inputs. Values from a two-element alphabet, clock +1 s "
+                "per event; numeric correctness is C04/C10/C11/C12's business, not this check's.",
+    },
     "C09": {
         "engine": "rrtk-mc c09-link-bfs + c09-read-values",
         "technique": "explicit-state BFS over all reachable link configurations of 2..6 (thorough 8) real terminals x all connect/disconnect actions; exhaustive presence x timestamp-order enumeration for the read clause",
